@@ -77,6 +77,7 @@ mod run {
         t0: Instant,
         jitter_us: u64,
         delays: Vec<Delay>,
+        ports: Vec<u16>,
     }
 
     fn hash_id<T: std::hash::Hash>(t: &T) -> u64 {
@@ -134,6 +135,12 @@ mod run {
         fn arrive(&self, name: &'static str, val: i64) {
             let me = std::thread::current().id();
             let inst = INST.with(Cell::get);
+            if name == "ctl.send" && inst != 99 {
+                // what the kernel says just before the predecessor is told: sockets in LISTEN state on each port
+                for (ix, port) in self.ports.iter().enumerate() {
+                    self.note("h.lsn", (ix as i64) * 1000 + listening_sockets(*port));
+                }
+            }
             let mut g = self.m.lock().unwrap();
             if g.free {
                 return;
@@ -204,6 +211,30 @@ mod run {
         }
         fn fin(&self, i: u32) -> Option<u64> {
             self.m.lock().unwrap().fin.get(&i).copied()
+        }
+    }
+
+    /// number of TCP sockets in LISTEN state with this local port (both families), from /proc/net/tcp{,6}; -1: unreadable
+    fn listening_sockets(port: u16) -> i64 {
+        let needle = format!(":{port:04X}");
+        let mut n = 0;
+        let mut read = false;
+        for f in ["/proc/net/tcp", "/proc/net/tcp6"] {
+            if let Ok(text) = std::fs::read_to_string(f) {
+                read = true;
+                for line in text.lines().skip(1) {
+                    let mut it = line.split_whitespace();
+                    let (_sl, local, _remote, st) = (it.next(), it.next().unwrap_or(""), it.next(), it.next().unwrap_or(""));
+                    if st == "0A" && local.ends_with(&needle) {
+                        n += 1;
+                    }
+                }
+            }
+        }
+        if read {
+            n
+        } else {
+            -1
         }
     }
 
@@ -458,18 +489,19 @@ mod run {
 
     #[allow(clippy::too_many_lines)]
     pub fn run(p: &Params) -> X {
+        // ports and path unique to this process and case
+        let (ports, _port_lock) = match claim_ports(p.nports) {
+            Some(x) => x,
+            None => return X::L(vec![X::N(96), X::N(3)]),
+        };
         let ctx = Arc::new(Ctx {
             m: Mutex::new(Inner { rng: p.seed | 1, ..Inner::default() }),
             cv: Condvar::new(),
             t0: Instant::now(),
             jitter_us: p.jitter_us,
             delays: p.delays.iter().map(|d| Delay { name: d.name.clone(), ms: d.ms, reps: d.reps, from: d.from }).collect(),
+            ports: ports.clone(),
         });
-        // ports and path unique to this process and case
-        let (ports, _port_lock) = match claim_ports(p.nports) {
-            Some(x) => x,
-            None => return X::L(vec![X::N(96), X::N(3)]),
-        };
         let path = std::env::temp_dir().join(format!("kvh-c11-{}-{}.sock", std::process::id(), ports[0]));
         let _ = std::fs::remove_file(&path);
         if p.stale {
